@@ -114,7 +114,7 @@ func c06Round(t *testing.T, rng *rand.Rand, queries bool) (viol []string, stats 
 						lt = cur - 1 - uint64(lr.Intn(2))
 					}
 					op := &c06Op{ID: id, LTime: lt, HasLTime: true}
-					var buf []byte
+					var buf, viaPP []byte
 					if queries {
 						var filt [][]byte
 						if lr.Intn(3) == 0 {
@@ -125,14 +125,29 @@ func c06Round(t *testing.T, rng *rand.Rand, queries bool) (viol []string, stats 
 							Filters: filt, Timeout: time.Second, Name: "in", Payload: []byte(fmt.Sprintf("in-%d", id))})
 					} else {
 						buf = wire.Encode(wire.UserEvent, &wire.MsgUserEvent{LTime: lt, Name: "in", Payload: []byte(fmt.Sprintf("in-%d", id))})
+						if lr.Intn(3) == 0 {
+							// the event arrives in a peer's push/pull state instead; the state's own event clock may
+							// lag behind the events it carries (a peer that reads its clock before it copies its
+							// buffer, an older or foreign implementation) - processed is processed (seeded C06-j)
+							hdr := []uint64{0, lt, lt + 1, lt / 2, lt + 3}[lr.Intn(5)]
+							viaPP = wire.Encode(wire.PushPull, &wire.MsgPushPull{LTime: 1, StatusLTimes: map[string]uint64{}, LeftMembers: []string{}, EventLTime: hdr,
+								Events: []*wire.UserEvents{nil, {LTime: lt, Events: []wire.UserEv{{Name: "in", Payload: []byte(fmt.Sprintf("in-%d", id))}}}}, QueryLTime: 1})
+						}
 					}
 					if queries && len(buf) > 0 && bytesContains(buf, []byte("somebody-else")) {
 						op.Filtered = buf
 					}
 					op.Call = stamp.Add(1)
-					nd.NotifyMsg(buf)
+					if viaPP != nil {
+						nd.ML.Delegate.MergeRemoteState(viaPP, false)
+					} else {
+						nd.NotifyMsg(buf)
+					}
 					op.Ret = stamp.Add(1)
 					mu.Lock()
+					if viaPP != nil {
+						stats["incoming_by_push_pull_state"]++
+					}
 					ops = append(ops, op)
 					mu.Unlock()
 				}
